@@ -62,6 +62,10 @@ pub open spec fn entry_at(d: Seq<u8>, k: int, w0: int, w1: int, w2: int) -> XRef
     xref_of(entry_type(d, k, w0, w1, w2), entry_f1(d, k, w0, w1, w2), entry_f2(d, k, w0, w1, w2))
 }
 // number of entries actually read: all announced ones, or (tolerant mode) as many whole entries as the data holds
+// (both are opaque to the solver, see `eoff`; `lemma_sec_defs` gives their definitions back)
+#[verifier::opaque]
+pub open spec fn sec_fits(n: int, e: int, len: int) -> bool { n * e <= len }
+#[verifier::opaque]
 pub open spec fn eff_count(n: int, e: int, len: int) -> int { if n * e > len { len / e } else { n } }
 pub open spec fn sec_e(w: Seq<usize>) -> int { w[0] + w[1] + w[2] }
 pub open spec fn sec_n(w: Seq<usize>, n: int, len: int) -> int { eff_count(n, sec_e(w), len) }
@@ -176,6 +180,9 @@ proof fn lemma_section_size(n: int, e: int, len: int)
     }
 }
 // position of entry k inside a section of m entries
+proof fn lemma_sec_defs(n: int, e: int, len: int)
+    ensures sec_fits(n, e, len) == (n * e <= len), eff_count(n, e, len) == (if n * e > len { len / e } else { n })
+{ reveal(sec_fits); reveal(eff_count); }
 proof fn lemma_eoff(k: int, e: int) ensures eoff(k, e) == k * e, eoff(0, e) == 0 { reveal(eoff); }
 proof fn lemma_entry_pos(k: int, m: int, e: int, len: int)
     requires 0 <= k < m, 0 <= e, eoff(m, e) <= len
@@ -318,6 +325,7 @@ fn codec_roundtrip(table: &XRefTable, size: usize, resolve: &impl Resolve)
                 assert(sec_e(w@) == 1 + w@[1] + w@[2]);
                 lemma_section_size(size as int, sec_e(w@), d0.len() as int);
                 lemma_eoff(size as int, sec_e(w@));
+                lemma_sec_defs(size as int, sec_e(w@), d0.len() as int);
                 assert(sec_n(w@, size as int, d0.len() as int) == size);
             }
             let r = parse_xref_section_from_stream(0, size, w, &mut d, resolve);
